@@ -564,13 +564,17 @@ def fat_type_locals(fn, toks):
     return out
 
 
-def depends_on_fat_type(fn, d, o, same_as=None):
-    """same_as: operands of FatType type passed in the same call - the dependence must be on (a local feeding) one of them"""
+def depends_on_fat_type(fn, d, o, same_as=None, holder=None):
+    """same_as: operands of FatType type passed in the same call - the dependence must be on (a local feeding) one of them;
+    holder: the local the enclosing aggregate is assigned to (a struct built once per arm of a FAT-type test carries the
+    dependence in *where* it is built, even when the field is a literal)"""
     toks = set(d.of_operand(o))
     locs = {tk[1] for tk in toks if tk[0] == 'local'}
     p = op_place(o)
     if p is not None:
         locs.add(p['l'])
+    if holder is not None:
+        locs.add(holder)
     toks |= control_tokens(fn, d, locs)
     if same_as:
         mine = fat_type_locals(fn, toks)
@@ -631,8 +635,11 @@ def run_root_region(ctx, rep):
                     for fname in ('root_dir_sectors', 'root_entries'):
                         if fname in s['rv']['fields'] and ('fat_type' in s['rv']['fields'] or fname == 'root_entries'):
                             sites.append((bi, s['span'], 'field `%s` of %s' % (fname, s['rv']['adt'].rsplit('::', 1)[-1]),
-                                          s['rv']['ops'][s['rv']['fields'].index(fname)], None))
+                                          s['rv']['ops'][s['rv']['fields'].index(fname)], ('holder', s['lhs']['l']) if not s['lhs']['p'] else None))
         for b, span, what, o, ft_ops in sites:
+            holder_ = None
+            if isinstance(ft_ops, tuple) and ft_ops and ft_ops[0] == 'holder':
+                holder_, ft_ops = ft_ops[1], None
             if d is None:
                 d = Deps(fn)
             toks0 = d.of_operand(o)
@@ -640,7 +647,7 @@ def run_root_region(ctx, rep):
             if own and any(('param', i) in toks0 for i in own):
                 continue  # handed on from this function's own parameter: judged at this function's callers
             n += 1
-            ok = depends_on_fat_type(fn, d, o, ft_ops)
+            ok = depends_on_fat_type(fn, d, o, ft_ops, holder=holder_)
             rep.oblige('V6', '%s|%s' % (fn.name, what), ok=ok, nontrivial=True,
                        sample={'fn': fn.name, 'at': fn.loc(span), 'what': what,
                                'rule': 'the value depends (data or control) on the FAT type'})
